@@ -843,6 +843,13 @@ func (w *world) doVmRemove(v int64, force bool, inj []int) {
 		return <-result
 	})
 	w.cleanAfterMoves()
+	if res == "ok" {
+		for k := range w.dirty {
+			if k[0] == uint64(v) {
+				delete(w.dirty, k)
+			}
+		}
+	}
 	w.line(fmt.Sprintf("vmremove v=%d force=%d inj=%s", v, b2i(force), vhlib.FmtList(inj)), fmt.Sprintf("res=%s moves=%s", res, fmtMoves(w.ws.moves)))
 }
 
@@ -1020,6 +1027,18 @@ var dbSuffixes = []string{"", "-wal", "-shm"}
 // their slot commit), everything is shut down, the copy is put back, unsynced
 // sector writes chosen by (p, seed) are replaced by garbage, and the host restarts.
 func (w *world) doCrash(p int, seed uint64) {
+	// slots that still exist (a shrink or a removal may have dropped dirty ones)
+	exists := map[int64]uint64{}
+	if vols, err := w.store.Volumes(); err == nil {
+		for _, v := range vols {
+			exists[v.ID] = v.TotalSectors
+		}
+	}
+	for k := range w.dirty {
+		if total, ok := exists[int64(k[0])]; !ok || k[1] >= total {
+			delete(w.dirty, k)
+		}
+	}
 	snap := filepath.Join(w.dir, "snap")
 	os.RemoveAll(snap)
 	w.fatal(os.MkdirAll(snap, 0o700))
